@@ -1,8 +1,17 @@
 //! C01 / C02: bit encoding of programs and witnesses.
 //!
 //! command `c01`, kinds
-//!   rt <c|r> <c|e> <pdl>      build the PDL program at commitment (c) / redemption (r) time with the
-//!                             Core (c) / Elements (e) jet family, serialise, decode, compare, re-serialise
+//!   rt <c|r> <c|e> <pdl> [wspec]   build the PDL program at commitment (c) / redemption (r) time with the
+//!                             Core (c) / Elements (e) jet family, serialise, decode, compare, re-serialise.
+//!                             With a wspec (codec_wit.rs) the construction-time witnesses are built from
+//!                             explicit constructors (not by the library's witness decoder) and the result
+//!                             ends with the witness observations of the original and the decoded program:
+//!                             <n> (<len> <observation>)*n  <m> (<len> <observation>)*m
+//!   rr <c|e> <pdl> <wspec>    redemption time: build (explicit witnesses), serialise, decode, then for every node of
+//!                             the DECODED program (post order, pointer identity):
+//!                               0 n  (1 <cmr 32> <ihr 32> <amr 32> 4 <source> <target> | 5 <cmr 32>)*n
+//!                             then libsimplicity on the same bytes: 2 (not applicable) | 1 <cmr 32> <ihr 32> <amr 32>
+//!                             | 10 + e (the C pipeline stopped)
 //!   jetcodes <c|e>            for every jet of the family, in ALL order:  <len> <bit>*len
 //!   cmr <pdl>                 commitment root of an expression
 //! command `c02`, kinds
@@ -17,6 +26,7 @@
 //!     0 iden | 1 unit | 2 injl i | 3 injr i | 4 take i | 5 drop i | 6 comp i j | 7 case i j | 8 pair i j
 //!     9 disconnect1 i | 10 disconnect i j | 11 witness | 12 fail <64 bytes> | 13 hidden <32 bytes>
 //!     14 jet <index in ALL> | 15 word n <2^n bits packed into ceil(2^n / 8) bytes, msb first>
+use crate::codec_wit;
 use crate::prog;
 use crate::util::*;
 
@@ -130,6 +140,7 @@ struct Obs {
     ihr: Option<[u8; 32]>,
     amr: Option<[u8; 32]>,
     wit: Option<Vec<u128>>,
+    wobs: Option<Vec<u128>>,
 }
 
 trait Observe: node::Marker {
@@ -137,6 +148,7 @@ trait Observe: node::Marker {
     fn ihr_of(n: &Node<Self>) -> Option<[u8; 32]>;
     fn amr_of(n: &Node<Self>) -> Option<[u8; 32]>;
     fn wit_of(w: &Self::Witness) -> Option<Vec<u128>>;
+    fn wobs_of(w: &Self::Witness) -> Option<Vec<u128>>;
 }
 
 impl Observe for node::Commit {
@@ -150,6 +162,9 @@ impl Observe for node::Commit {
         n.amr().map(|x| x.to_byte_array())
     }
     fn wit_of(_: &node::NoWitness) -> Option<Vec<u128>> {
+        None
+    }
+    fn wobs_of(_: &node::NoWitness) -> Option<Vec<u128>> {
         None
     }
 }
@@ -170,6 +185,9 @@ impl Observe for node::Redeem {
         v.push(99);
         v.extend(prog::compact_bits(w));
         Some(v)
+    }
+    fn wobs_of(w: &simplicity::Value) -> Option<Vec<u128>> {
+        Some(codec_wit::wit_obs(w))
     }
 }
 
@@ -243,6 +261,7 @@ fn walk<N: Observe>(root: &Node<N>, by_id: bool) -> Vec<Obs> {
                 ihr: None,
                 amr: None,
                 wit: None,
+                wobs: None,
             }),
             EN::Node(n) => {
                 let (s, t) = N::arrow_of(n);
@@ -250,11 +269,11 @@ fn walk<N: Observe>(root: &Node<N>, by_id: bool) -> Vec<Obs> {
                 let mut tgt = vec![];
                 prog::ty_nums(&s, &mut src);
                 prog::ty_nums(&t, &mut tgt);
-                let wit = match n.inner() {
-                    Inner::Witness(w) => N::wit_of(w),
-                    _ => None,
+                let (wit, wobs) = match n.inner() {
+                    Inner::Witness(w) => (N::wit_of(w), N::wobs_of(w)),
+                    _ => (None, None),
                 };
-                out.push(Obs { shape, cmr: n.cmr().to_byte_array(), src, tgt, ihr: N::ihr_of(n), amr: N::amr_of(n), wit });
+                out.push(Obs { shape, cmr: n.cmr().to_byte_array(), src, tgt, ihr: N::ihr_of(n), amr: N::amr_of(n), wit, wobs });
             }
         }
     }
@@ -396,7 +415,17 @@ fn dnodes_of<N: Observe>(root: &Node<N>) -> Vec<u128> {
     v
 }
 
-fn c01_rt<J: Jet>(time: &str, pdl: &str) -> Vec<u128> {
+/// witness observations of the witness nodes of a walk, in order: <n> (<len> <observation>)*n
+fn push_wobs<N: Observe>(root: &Node<N>, by_id: bool, out: &mut Vec<u128>) {
+    let obs: Vec<Vec<u128>> = walk(root, by_id).into_iter().filter_map(|o| o.wobs).collect();
+    out.push(obs.len() as u128);
+    for o in obs {
+        out.push(o.len() as u128);
+        out.extend(o);
+    }
+}
+
+fn c01_rt<J: Jet>(time: &str, pdl: &str, wspec: Option<&str>) -> Vec<u128> {
     let specs = prog::parse_prog(pdl);
     let mut out = vec![];
     if time == "c" {
@@ -422,7 +451,11 @@ fn c01_rt<J: Jet>(time: &str, pdl: &str) -> Vec<u128> {
             }
         }
     } else {
-        let orig = match prog::redeem(&specs, true) {
+        let built = match wspec {
+            Some(w) => codec_wit::redeem_explicit(&specs, &codec_wit::parse_wspec(w)),
+            None => prog::redeem(&specs, true),
+        };
+        let orig = match built {
             Ok(p) => p,
             Err(e) => return vec![1, prog::err_code(&e)],
         };
@@ -445,6 +478,59 @@ fn c01_rt<J: Jet>(time: &str, pdl: &str) -> Vec<u128> {
                 // same roots as the decoded program: 2 = not applicable, 1 = agrees, 0 = roots differ,
                 // 10 + e = the C pipeline stopped (e = -SimplicityErr)
                 out.push(c_roots::<J>(&pb, &wb, &dec));
+                if wspec.is_some() {
+                    push_wobs(&orig, true, &mut out);
+                    push_wobs(&dec, false, &mut out);
+                }
+            }
+        }
+    }
+    out
+}
+
+fn c01_rr<J: Jet>(pdl: &str, wspec: &str) -> Vec<u128> {
+    let specs = prog::parse_prog(pdl);
+    let orig = match codec_wit::redeem_explicit(&specs, &codec_wit::parse_wspec(wspec)) {
+        Ok(p) => p,
+        Err(e) => return vec![1, prog::err_code(&e)],
+    };
+    let (pb, wb) = orig.to_vec_with_witness();
+    let dec = match RedeemNode::decode::<_, _, J>(BitIter::from(&pb[..]), BitIter::from(&wb[..])) {
+        Ok(d) => d,
+        Err(e) => {
+            let mut v = vec![1];
+            v.extend(derr_triple(&e));
+            return v;
+        }
+    };
+    let obs = walk(&dec, false);
+    let mut out = vec![0, obs.len() as u128];
+    for o in &obs {
+        if o.shape[0] == 13 {
+            out.push(5);
+            out.extend(o.cmr.iter().map(|b| *b as u128));
+        } else {
+            out.push(1);
+            out.extend(o.cmr.iter().map(|b| *b as u128));
+            out.extend(o.ihr.unwrap().iter().map(|b| *b as u128));
+            out.extend(o.amr.unwrap().iter().map(|b| *b as u128));
+            out.push(4);
+            out.extend(o.src.iter());
+            out.extend(o.tgt.iter());
+        }
+    }
+    // third party: the root values libsimplicity computes for the same bytes
+    use simplicity::ffi::tests::{parse_root, run_program, TestUpTo};
+    if std::any::TypeId::of::<J>() != std::any::TypeId::of::<Elements>() {
+        out.push(2);
+    } else {
+        match run_program(&pb, &wb, TestUpTo::ComputeIhr, None, None) {
+            Err(e) => out.push(10 + (-(e as i32)) as u128),
+            Ok(o) => {
+                out.push(1);
+                out.extend(parse_root(&o.cmr.s).iter().map(|b| *b as u128));
+                out.extend(parse_root(&o.ihr.s).iter().map(|b| *b as u128));
+                out.extend(parse_root(&o.amr.s).iter().map(|b| *b as u128));
             }
         }
     }
@@ -488,10 +574,18 @@ fn jetcodes<J: Jet>(all: &[J]) -> Vec<u128> {
 pub fn run_c01(t: &[&str]) -> String {
     let r = guarded(|| match t[0] {
         "rt" => {
+            let wspec = t.get(4).copied();
             if t[2] == "c" {
-                c01_rt::<Core>(t[1], t[3])
+                c01_rt::<Core>(t[1], t[3], wspec)
             } else {
-                c01_rt::<Elements>(t[1], t[3])
+                c01_rt::<Elements>(t[1], t[3], wspec)
+            }
+        }
+        "rr" => {
+            if t[1] == "c" {
+                c01_rr::<Core>(t[2], t[3])
+            } else {
+                c01_rr::<Elements>(t[2], t[3])
             }
         }
         // cmr <pdl>: 0 <32 bytes> = commitment root of the expression (no type finalisation), or 1 <code>
